@@ -910,17 +910,17 @@ theorem fetch_optAll_map {α : Type} (f : α → Option Str) : ∀ (l : List α)
           | head => rw [hx]; rfl
           | tail _ hm => exact h2 y hm
 
-theorem fetch_dispatch (n : Nat) (u : Str) (its : List Item) (r' : Str) (h : readItems (40 :: u) = some (its, r')) :
+theorem fetch_dispatch (n : Nat) (h0 : n ≠ 0) (u : Str) (its : List Item) (r' : Str) (h : readItems (40 :: u) = some (its, r')) :
     dispatchData n (asc "FETCH") (32 :: 40 :: u) = some (Event.fetch { seq := n, items := its }, r') := by
   have hsp : expectSP (32 :: 40 :: u) = some (40 :: u) := expectSP_sp 40 u (by decide) (by decide)
-  simp [dispatchData, asc, hsp, h]
+  simp [dispatchData, asc, hsp, h, h0]
 
 /-- The FETCH line: `* n FETCH (item SP item …)CRLF` as `FetchWriter.CreateMessage … Close` writes it is
     read by the client as one FETCH event carrying the message number and the canonical items. The
     items come back in the order written (the reader is `Decoder.ExpectList` over the items, proved by
     `decList_encList`, which maps the written list position by position), and the bytes of every literal
     are delivered unchanged (`fetch_sec`, `fetch_bin`: the data of the item read is the data written). -/
-theorem fetch_line (utf8 : Bool) (reqExt : Option Bool) (m : Msg) (bytes : Str) (hseq : m.seq < 4294967296)
+theorem fetch_line (utf8 : Bool) (reqExt : Option Bool) (m : Msg) (bytes : Str) (hseq : m.seq ≠ 0 ∧ m.seq < 4294967296)
     (hwf : ∀ it ∈ m.items, RespSpec.wfItem reqExt it = true) (hb : ∀ it ∈ m.items, fetch_Bounded it)
     (hp : printMsg utf8 m = some bytes) :
     ReadsAs bytes (Event.fetch { seq := m.seq, items := m.items.map RespSpec.canonItem }) := by
@@ -952,8 +952,8 @@ theorem fetch_line (utf8 : Bool) (reqExt : Option Bool) (m : Msg) (bytes : Str) 
         have e2 : a :: (l ++ 32 :: (asc "FETCH" ++ 32 :: (encList its ++ 13 :: 10 :: rest))) =
             encNumber m.seq ++ 32 :: (asc "FETCH" ++ 32 :: (encList its ++ 13 :: 10 :: rest)) := by
           rw [hd]; rfl
-        rw [e2, readUntagged_num m.seq hseq (asc "FETCH") _ (isName_of _ (by decide)) (StopsAt.cons _ (by decide)), hu,
-          fetch_dispatch m.seq u _ _ hdec, finishLine_crlf]
+        rw [e2, readUntagged_num m.seq hseq.2 (asc "FETCH") _ (isName_of _ (by decide)) (StopsAt.cons _ (by decide)), hu,
+          fetch_dispatch m.seq hseq.1 u _ _ hdec, finishLine_crlf]
 
 theorem fetch_concatOpt_map {α : Type} (f : α → Option Str) : ∀ (l : List α) (bytes : Str), concatOpt (l.map f) = some bytes →
     bytes = (l.map (fun x => (f x).getD [])).flatten ∧ ∀ x ∈ l, f x = some ((f x).getD []) := by
@@ -986,7 +986,7 @@ theorem fetch_concatOpt_map {α : Type} (f : α → Option Str) : ∀ (l : List 
 /-- A whole FETCH reply (`printFetch`: one line per message) is a sequence of lines, each read as the FETCH
     event of its message: same messages, same order, canonical items. -/
 theorem fetch_lines (cfg : Cfg) (reqExt : Option Bool) (ms : List Msg) (bytes : Str)
-    (hseq : ∀ m ∈ ms, m.seq < 4294967296)
+    (hseq : ∀ m ∈ ms, m.seq ≠ 0 ∧ m.seq < 4294967296)
     (hwf : ∀ m ∈ ms, ∀ it ∈ m.items, RespSpec.wfItem reqExt it = true) (hb : ∀ m ∈ ms, ∀ it ∈ m.items, fetch_Bounded it)
     (hp : printFetch cfg ms = some bytes) :
     ∃ lines, bytes = lines.flatten ∧
